@@ -84,8 +84,9 @@ class SslRecord(ParsableBase):
             parser.parse_numeric('padding_length', 1)
             padding_length = parser['padding_length']
 
-        if record_length > parser.unparsed_length:
-            raise NotEnoughData(record_length - parser.unparsed_length)
+        unparsed_length = parser.unparsed_length
+        if record_length > unparsed_length:
+            raise NotEnoughData(record_length - unparsed_length)
 
         try:
             parser.parse_numeric('message_type', 1, SslMessageType)
@@ -94,6 +95,9 @@ class SslRecord(ParsableBase):
 
         parser.parse_variant('message', SslSubprotocolMessageParser(parser['message_type']))
         parser.parse_raw('padding', padding_length)
+
+        if parser.unparsed_length != unparsed_length - record_length:
+            raise InvalidValue(record_length, cls, 'record_length')
 
         return SslRecord(message=parser['message']), parser.parsed_length
 
